@@ -554,7 +554,9 @@ func c07Judge(c *c07Case, v *c07View) []c07Finding {
 	}
 
 	// I12 role use limit (service tokens; batch tokens carry no use count).
-	if ro != nil && ro.NumUses > 0 && v.Type == "service" && (v.NumUses < 1 || v.NumUses > ro.NumUses) {
+	// A negative count in a stored view is the revocation-pending mark: the token is being torn down
+	// and carries no more privilege than stated, so it is not judged here (0 = unlimited is).
+	if ro != nil && ro.NumUses > 0 && v.Type == "service" && (v.NumUses == 0 || v.NumUses > ro.NumUses) {
 		add("C07-role-num-uses-not-applied", "role token_num_uses=%d, token num_uses=%d", ro.NumUses, v.NumUses)
 	}
 
